@@ -972,6 +972,12 @@ Definition add_inst (st : sstate) (i : inst) : sstate :=
   mkS (frames st) (assigned st) (entities st) (exported st) (i :: insts st) (events st)
       (n_uses st) (n_assign st) (n_widthchk st) (n_varreads st) (hides st) (fl st).
 
+Fixpoint find_entity (lc : string) (es : list (string * list decl)) : option (list decl) :=
+  match es with
+  | [] => None
+  | (n, ds) :: r => if String.eqb n lc then Some ds else find_entity lc r
+  end.
+
 (* label : [entity work .] name [generic map (...)] port map (...) *)
 Definition handle_inst (st : sstate) (label : string) (rest : list token) (chunk : list token)
   : res sstate :=
@@ -984,6 +990,12 @@ Definition handle_inst (st : sstate) (label : string) (rest : list token) (chunk
   match ename with
   | None => Err "instantiation not understood" chunk
   | Some e =>
+      (* analysis order: a direct instantiation `entity work.X` needs X to be analysed before the
+         instantiating architecture, i.e. declared earlier in this file or in a file that precedes it
+         in the compile order the files are handed over in (project script order) *)
+      if match rest with TKw Kentity :: _ => true | _ => false end
+         && match find_entity (lower e) (entities st) with None => true | Some _ => false end
+      then Err "entity instantiated before it is analysed (design-unit order)" chunk else
       do st1 <- declare st (mkDecl label CLabel WUnknown) chunk;
       let rest2 := match rest1 with
                    | TKw Kgeneric :: TKw Kmap :: r =>
@@ -1073,12 +1085,6 @@ Definition set_begun (st : sstate) : sstate :=
 Definition add_entity (st : sstate) (n : string) (ds : list decl) : sstate :=
   mkS (frames st) (assigned st) ((lower n, ds) :: entities st) (exported st) (insts st) (events st)
       (n_uses st) (n_assign st) (n_widthchk st) (n_varreads st) (hides st) (fl st).
-
-Fixpoint find_entity (lc : string) (es : list (string * list decl)) : option (list decl) :=
-  match es with
-  | [] => None
-  | (n, ds) :: r => if String.eqb n lc then Some ds else find_entity lc r
-  end.
 
 Definition handle_end (st : sstate) (rest : list token) (chunk : list token) : res sstate :=
   match rest with
